@@ -46,6 +46,19 @@ func main() {
 	replay := fs.String("replay", "", "ops file to re-run (ops are re-executed on the implementation)")
 	mode := fs.String("mode", "corr", "corr | oracle")
 	fs.Parse(os.Args[2:])
+	if needBubble[name] {
+		// the whole run happens under a fake clock (testing/synctest): timers fire deterministically
+		inBubble(func() { run(name, *seed, *n, *tier, *out, *stats, *replay, *mode) })
+		return
+	}
+	run(name, *seed, *n, *tier, *out, *stats, *replay, *mode)
+}
+
+// streams that only exist in the build with the fake clock (go >= 1.25, bin/corr26)
+var needBubble = map[string]bool{"ket": true}
+
+func run(name string, seedV int64, nV int, tierV, outV, statsV, replayV, modeV string) {
+	seed, n, tier, out, stats, replay, mode := &seedV, &nV, &tierV, &outV, &statsV, &replayV, &modeV
 	if *mode == "oracle" {
 		of, ok := oracles[name]
 		if !ok {
